@@ -27,6 +27,12 @@ class Fn:
 
 def parse_functions(text):
     fns = {}
+    for m in re.finditer(r'^const (.+?::promoted\[\d+\]): (.*?) = \{\n(.*?)^\}', text, re.S | re.M):
+        blocks = {}
+        for bm in re.finditer(r'^    (bb\d+)(?: \(cleanup\))?: \{\n(.*?)^    \}', m.group(3), re.S | re.M):
+            blocks[bm.group(1)] = [l.strip() for l in bm.group(2).split('\n') if l.strip()]
+        f = Fn(m.group(1), 0, blocks); f.ptext = ''; f.ret = m.group(2); f.debug = {}; f.captures = []
+        fns[m.group(1)] = f
     for m in re.finditer(r'^fn (.+?)\((.*?)\) -> (.*?) \{\n(.*?)^\}', text, re.S | re.M):
         name, params, ret, body = m.group(1), m.group(2), m.group(3), m.group(4)
         blocks = {}
@@ -131,7 +137,7 @@ class Ctx:
     def __init__(self, solver, decisions): self.s, self.dec, self.i, self.pc = solver, decisions, 0, []
     def branch(self, cond):
         """cond: z3 Bool or python bool -> python bool, forking when undetermined"""
-        if isinstance(cond, bool): return cond
+        if isinstance(cond, (bool, int)): return bool(cond)
         cond = simplify(cond)
         if is_true(cond): return True
         if is_false(cond): return False
@@ -152,24 +158,51 @@ def eval_operand(fr, s, ctx):
     s = re.sub(r'^(no_retag )?(move|copy) ', '', s)
     if s.startswith('const '):
         c = s[6:]
-        if c.startswith("'") : return ord(c[1]) if len(c) == 3 else c
+        if c.startswith("'"):
+            body = c[1:-1]
+            if len(body) == 1: return ord(body)
+            mu = re.fullmatch(r'\\u\{([0-9a-fA-F]+)\}', body)
+            if mu: return int(mu.group(1), 16)
+            if body.startswith('\\') and len(body) == 2: return {'n': 10, 't': 9, 'r': 13, '0': 0, '\\': 92, "'": 39, '"': 34}[body[1]]
+            return c
         if c.startswith('ZeroSized: {closure@'):
             return Closure(find_closure(c))
         m = re.fullmatch(r'(-?[\d.]+(?:e-?\d+)?)f64', c)
         if m: return FPVal(float(m.group(1)), Float64())
-        m = re.match(r'(-?\d+)_u16', c)
-        if m: return BitVecVal(int(m.group(1)), 16)
+        m = re.match(r'(-?\d+)_(u8|u16|u32|u64|i16|i32|i64)$', c)
+        if m: return BitVecVal(int(m.group(1)), int(m.group(2)[1:]))
         m = re.match(r'(-?\d+)_', c)
         if m: return int(m.group(1))
         m = re.match(r'\{(alloc\d+): ', c)
         if m: return STATICS[m.group(1)]
-        if c.endswith('promoted[0]'): return Ref(Cell(PROMOTED['::'.join(c.split('::')[-3:])]))
+        mp = re.search(r'promoted\[(\d+)\]$', c)
+        if mp:
+            key = '::'.join(c.split('::')[-3:])
+            if key in PROMOTED: return Ref(Cell(PROMOTED[key]))
+            pname = CURRENT_FN[-1].name + '::promoted[%s]' % mp.group(1)
+            if pname in FNS: return run_fn(pname, [], ctx)
+            raise NotEncodable('promoted constant ' + c)
         if c in ('true', 'false'): return c == 'true'
+        if c.startswith('b"'):
+            return rust_bytes(c[2:-1])
         if c.startswith('"'):
             lit = bytes(c[1:-1], 'utf-8').decode('unicode_escape').encode('latin-1')
             return Str(list(lit))
         return ('const', c)
     return fr.ref(parse_place(s)).get()
+
+def rust_bytes(body):
+    out, i = [], 0
+    while i < len(body):
+        ch = body[i]
+        if ch == '\\':
+            n = body[i + 1]
+            if n == 'x': out.append(int(body[i + 2:i + 4], 16)); i += 4
+            else: out.append({'n': 10, 't': 9, 'r': 13, '0': 0, '\\': 92, '"': 34, "'": 39}[n]); i += 2
+        else:
+            out.append(ord(ch)); i += 1
+    return bytes(out)
+
 
 def find_closure(c):
     loc = re.search(r'closure@([^}]*)\}', c).group(1)
@@ -236,6 +269,32 @@ def eval_rvalue(fr, rv, ctx):
         if op == 'Eq': return a == b
         if op == 'Ne': return a != b
         raise Exception('binop ' + op)
+    m = re.fullmatch(r'(Add|Sub|Mul)WithOverflow\((.*)\)', rv)
+    if m:
+        a, b = [eval_operand(fr, o, ctx) for o in split_top(m.group(2))]
+        if isinstance(a, bool): a = int(a)
+        if isinstance(b, bool): b = int(b)
+        if isinstance(a, int) and isinstance(b, int):
+            return Struct([{'Add': a + b, 'Sub': a - b, 'Mul': a * b}[m.group(1)], False])
+        raise NotEncodable('symbolic checked arithmetic in container mode')
+    m = re.fullmatch(r'(.*) as \w+ \(IntToInt\)', rv)
+    if m:
+        v = eval_operand(fr, m.group(1), ctx)
+        return int(v) if isinstance(v, bool) else v
+    if rv.startswith('(') and rv.endswith(')') and re.match(r'\((move|copy|const) ', rv):
+        parts = split_top(rv[1:-1])
+        if len(parts) > 1 or rv.endswith(',)'):
+            return Struct([eval_operand(fr, o, ctx) for o in parts])
+    m = re.fullmatch(r"((?:[A-Za-z_]\w*::)*[A-Z]\w*)(::<.*?>)?\((.*)\)", rv)
+    if m and not rv.startswith(('move ', 'copy ', 'const ')) and ('::' in m.group(1) or m.group(2)):   # tuple-struct constructor (always printed with a path or generics)
+        st = Struct([eval_operand(fr, o, ctx) for o in split_top(m.group(3))])
+        st.kind = m.group(1).split('::')[-1] + (m.group(2)[2:] if m.group(2) else '')
+        return st
+    m = re.fullmatch(r"((?:[A-Za-z_]\w*::)*[A-Z]\w*)(::<.*?>)? \{ (.*) \}", rv)
+    if m:                                                                          # struct aggregate
+        st = Struct([eval_operand(fr, part.split(':', 1)[1], ctx) for part in split_top(m.group(3))])
+        st.kind = m.group(1).split('::')[-1]
+        return st
     m = re.fullmatch(r'(Not|Neg)\((.*)\)', rv)
     if m:
         v = eval_operand(fr, m.group(2), ctx)
@@ -299,6 +358,31 @@ class SplitIter:
     def __init__(self, s, ch): self.rest, self.ch, self.done = list(s.b), ch, False
 
 def opt(v): return Enum('None', []) if v is None else Enum('Some', [v])
+
+
+def split_next(it, ctx):
+    if it.done: return None
+    for i, by in enumerate(it.rest):
+        if ctx.branch(by == it.ch if not isinstance(by, int) else by == it.ch):
+            piece, it.rest = it.rest[:i], it.rest[i + 1:]
+            return Str(piece)
+    it.done = True
+    return Str(it.rest)
+
+
+def closure_name(clo):
+    return CLOSURE_OF[id(clo)] if id(clo) in CLOSURE_OF else clo.fn
+
+
+def iter_next(it, ctx):
+    """next() of any iterator object of the interpreter (None = exhausted)"""
+    if isinstance(it, SplitIter): return split_next(it, ctx)
+    if isinstance(it, MapIter):
+        x = iter_next(it.it, ctx)
+        if x is None: return None
+        return run_fn(closure_name(it.clo), [Ref(Cell(it.clo)) if not isinstance(it.clo, Closure) else it.clo, x], ctx)
+    return it.next()
+
 def is_ws(b): return Or(b == 0x20, And(UGE(b, 9), ULE(b, 13))) if not isinstance(b, int) else (b == 0x20 or 9 <= b <= 13)
 
 def option_is_some(o, ctx):
@@ -323,8 +407,14 @@ def serialize_value(v, ser, ctx):
 class Wrapper(Struct):
     def __init__(self, kind, inner): Struct.__init__(self, [inner]); self.kind = kind
 VRNAMES = ['AE','AS','AT','CS','DA','DS','DT','FL','FD','IS','LO','LT','OB','OD','OF','OL','OV','OW','PN','SH','SL','SQ','SS','ST','SV','TM','UC','UI','UL','UN','UR','US','UT','UV']
+EXTRA_CONTRACTS = []     # case modules register (callee, args, ctx) -> value | NotImplemented
+
+
 def call(fr, callee, args, ctx):
     c = callee
+    for ex in EXTRA_CONTRACTS:
+        r = ex(c, args, ctx)
+        if r is not NotImplemented: return r
     x = resolve_cross(c)
     if x: return run_fn(x, args, ctx)
     if c.endswith('_serde::Serializer>::serialize_map'): args[0].ev.append(('map',)); return Enum('Ok', [args[0]])
@@ -344,12 +434,12 @@ def call(fr, callee, args, ctx):
     if m: return Wrapper(m.group(1), args[0])
     if c.startswith("<Cow<'_, [std::string::String]> as Deref>::deref"): return args[0].get()
     if c == '<I as IntoIterator>::into_iter': return SliceIter([Ref(Cell(e)) for e in args[0].get().items])
-    if c.endswith('as Iterator>::collect::<Vec<String>>'):
+    if c.endswith('as Iterator>::collect::<Vec<String>>') or c.endswith('as Iterator>::collect::<Vec<std::string::String>>'):
         out = []
         while True:
-            item = args[0].it.next()
+            item = iter_next(args[0], ctx)
             if item is None: return VecV(out)
-            out.append(run_fn(CLOSURE_OF[id(args[0].clo)] if id(args[0].clo) in CLOSURE_OF else args[0].clo.fn, [Ref(Cell(args[0].clo)), item], ctx))
+            out.append(item)
     if c == '<<I as IntoIterator>::Item as ToString>::to_string':
         v = args[0].get(); v = v.get() if isinstance(v, Ref) else v
         if isinstance(v, Struct) and len(v.f) == 2:          # Tag: Display is "(GGGG,EEEE)" upper-case hex (C14 Kani result)
@@ -388,14 +478,7 @@ def call(fr, callee, args, ctx):
         return Str(b)
     if 'impl str>::split::<char>' in c: return SplitIter(args[0], args[1])
     if c.endswith("Split<'_, char> as Iterator>::next"):
-        it = args[0].get()
-        if it.done: return opt(None)
-        for i, by in enumerate(it.rest):
-            if ctx.branch(by == it.ch if not isinstance(by, int) else by == it.ch):
-                piece, it.rest = it.rest[:i], it.rest[i + 1:]
-                return opt(Str(piece))
-        it.done = True
-        return opt(Str(it.rest))
+        return opt(split_next(args[0].get(), ctx))
     if re.match(r'Option::<&str>::and_then::', c):
         o, clo = args
         if o.variant == 'None': return Enum('None', [])
@@ -494,6 +577,44 @@ def call(fr, callee, args, ctx):
         return Enum('Err', [run_fn(CLOSURE_OF[id(clo)], [clo], ctx)])
     if c == 'Vec::<T>::new': return VecV([])
     if 'as DicomValueType>::value_type' in c or 'as ToString>::to_string' in c or c.endswith('::build') or 'as Into<Box<' in c: return ('opaque', c)
+    if c.endswith('as Itertools>::join'):
+        it = args[0].get() if isinstance(args[0], Ref) else args[0]
+        sep = args[1].get() if isinstance(args[1], Ref) else args[1]
+        out, first = [], True
+        while True:
+            x = iter_next(it, ctx)
+            if x is None: return Str(out)
+            x = x.get() if isinstance(x, Ref) else x
+            if not first: out += list(sep.b)
+            out += list(x.b); first = False
+    if re.match(r'SmallVec::<.*>::len$', c) or re.match(r'Vec::<.*>::len$', c): return len(args[0].get().items)
+    if re.match(r'<SmallVec<.*> as Index<usize>>::index', c) or re.match(r'<Vec<.*> as Index<usize>>::index', c):
+        return Ref(Cell(args[0].get().items[args[1] if isinstance(args[1], int) else args[1].as_long()]))
+    if 'impl str>::trim_end_matches::<[char; 2]>' in c or 'impl str>::trim_end_matches::<[char; 2_usize]>' in c:
+        s_, pats = args[0], args[1]
+        s_ = s_.get() if isinstance(s_, Ref) else s_
+        chars = [p for p in (pats.f if isinstance(pats, Struct) else pats)]
+        b = list(s_.b)
+        while b and ctx.branch(Or([b[-1] == ch for ch in chars]) if not isinstance(b[-1], int) else (b[-1] in chars)): b.pop()
+        return Str(b)
+    if re.match(r"<Cow<'_, str> as From<&str>>::from", c) or re.match(r"<Cow<'_, str> as From<String>>::from", c): return args[0]
+    if re.match(r"<Cow<'_, str> as Deref>::deref", c): return args[0].get() if isinstance(args[0], Ref) else args[0]
+    if re.match(r"<String as Deref>::deref", c) or c in ('std::string::String::as_str', 'String::as_str'): return args[0].get() if isinstance(args[0], Ref) else args[0]
+    if c == '<str as ToOwned>::to_owned' or c == '<String as Clone>::clone': 
+        v = args[0].get() if isinstance(args[0], Ref) else args[0]
+        return Str(list(v.b))
+    m = re.fullmatch(r'(?:\w+::)*(\w+)(?:::<[^>]*>)?::(\w+)', c)
+    if m:      # inherent method written Type::method: resolve to the impl fn with that receiver type
+        ty, meth = m.group(1), m.group(2)
+        cands = [n for n, f in FNS.items() if n.endswith('::' + meth) and '<impl at' in n and re.match(r'_1: &?(mut )?%s\b' % re.escape(ty), f.ptext)]
+        if len(cands) == 1: return run_fn(cands[0], args, ctx)
+    m = re.fullmatch(r'<(.+) as (\w+)(<.*>)?>::(\w+)', c)
+    if m:      # trait method call on a type of the dumped crates: resolve to the impl fn by receiver / result type
+        norm = lambda t: re.sub(r"<'_>|'_ |'\w+ ", '', t).strip()
+        ty, meth = norm(m.group(1)), m.group(4)
+        cands = [n for n, f in FNS.items() if n.endswith('::' + meth) and '<impl at' in n and
+                 (norm(f.ret) == ty or re.match(r'_1: &?(mut )?%s(?![\w<])' % re.escape(ty), norm(f.ptext)))]
+        if len(cands) == 1: return run_fn(cands[0], args, ctx)
     raise NotEncodable('no contract for ' + c)
 
 def parse_call(st):
@@ -534,6 +655,13 @@ def run_fn_(name, args, ctx, depth=0):
             if m: nxt = m.group(1); break
             m = re.fullmatch(r'drop\(.*\) -> \[return: (bb\d+).*\]', st)
             if m: nxt = m.group(1); break
+            m = re.fullmatch(r'assert\((!?)(.*?), ".*\) -> \[success: (bb\d+).*\]', st)
+            if m:
+                cv = eval_operand(fr, m.group(2), ctx)
+                cv = bool(cv) if isinstance(cv, (bool, int)) else ctx.branch(cv)
+                ok = (not cv) if m.group(1) else cv
+                if not ok: raise NotEncodable('reachable panic: ' + st[:100])
+                nxt = m.group(3); break
             m = re.fullmatch(r'switchInt\((.*)\) -> \[(.*)\]', st)
             if m:
                 v = eval_operand(fr, m.group(1), ctx)
